@@ -721,6 +721,8 @@ def search(chk: Check, hints: list, budget_s: float) -> None:
             for tup in itertools.product(a, repeat=n):
                 v = "".join(tup)
                 for kind in ("string", "identifier"):
+                    if len(chk.violations) >= 5:
+                        break
                     tried += 1
                     found += consider(chk, d, kind, v, {})
         if time.time() - t0 > budget_s * 0.5:
